@@ -1,8 +1,62 @@
 /-
-C08 — property theorems (stub; see DESIGN.md §6).
+C08 — Prediction is a pure, row-wise arg-max of activation.
+
+In the model `predict` is `List.map` of `step_pred` over the rows and returns no
+state: purity and row-independence are structural.  The theorems spell out the
+consequences the property names and the arg-max rule (`np.argmax`: first index
+of the maximal activation; `none` only for an empty model).
 -/
-import ArtModel.Basic
+import ArtProofs.Predict
 
 namespace Art.C08
+
+variable {X Wt α μ θ : Type} [LinearOrder α]
+
+/-- each row is labelled independently of the rest of the batch -/
+theorem predict_pointwise (K : Kernel X Wt α μ) (W : List Wt) (xs : List X) (i : Nat) :
+    (predict K W xs)[i]? = (xs[i]?).map (stepPred K W) :=
+  predict_getElem? K W xs i
+
+/-- batching -/
+theorem predict_batching (K : Kernel X Wt α μ) (W : List Wt) (xs ys : List X) :
+    predict K W (xs ++ ys) = predict K W xs ++ predict K W ys :=
+  predict_append K W xs ys
+
+/-- row permutation -/
+theorem predict_permutation (K : Kernel X Wt α μ) (W : List Wt) {xs ys : List X} (h : xs.Perm ys) :
+    (predict K W xs).Perm (predict K W ys) :=
+  predict_perm K W h
+
+/-- repetition -/
+theorem predict_repetition (K : Kernel X Wt α μ) (W : List Wt) (x : X) (n : Nat) :
+    predict K W (List.replicate n x) = List.replicate n (stepPred K W x) :=
+  predict_replicate K W x n
+
+/-- with finite activations, each row receives the oldest category of maximal activation -/
+theorem predict_is_first_argmax (K : Kernel X Wt α μ) (W : List Wt) (x : X) (k : Nat)
+    (hfin : ∀ w ∈ W, K.choice W x w ≠ none) (h : stepPred K W x = some k) :
+    ∃ v, IsFirstMax (activations K W x) k v :=
+  stepPred_first_max K W x k hfin h
+
+/-- no prediction is outside the trained range, and a non-empty model always predicts -/
+theorem predict_in_range (K : Kernel X Wt α μ) (W : List Wt) (x : X) :
+    (∀ k, stepPred K W x = some k → k < W.length) ∧ (W ≠ [] → (stepPred K W x).isSome) :=
+  ⟨fun k h => stepPred_lt K W x k h, stepPred_isSome K W x⟩
+
+/-- SimpleARTMAP / ARTMAP (after any training history, hence `MapInv` and
+`Consistent`): the prediction is the map of the A-side prediction and is a class
+seen in training. -/
+theorem smap_predict_spec (K : Kernel X Wt α μ) {s : SMapState Wt} (hm : MapInv s)
+    (hc : Consistent s.a) (x : X) (hne : s.a.W ≠ []) :
+    ∃ c y, stepPred K s.a.W x = some c ∧ mapGet s.map c = some y ∧
+      smapStepPred K s x = some (c, y) ∧ y ∈ s.labelsB :=
+  smapStepPred_spec K hm hc x hne
+
+/-! Non-vacuity -/
+private def K0 : Kernel Int Int Int Int :=
+  { choice := fun _ x w => some (-(x - w).natAbs), matchv := fun _ _ => 0,
+    update := fun _ w => w, newW := fun x => x }
+-- tie between categories 0 and 2 (both at distance 1 from 1): the oldest wins
+example : predict K0 [0, 7, 2] [1, 7, 100] = [some 0, some 1, some 1] := by decide
 
 end Art.C08
